@@ -20,10 +20,12 @@ import (
 
 type etcdWorld struct {
 	*world
-	srv   *etcd.RPCServer
-	peers *hx.Peers
-	ws    *hx.WatchStream
-	m     *mvcc
+	srv    *etcd.RPCServer
+	peers  *hx.Peers
+	ws     *hx.WatchStream
+	ws2    *hx.WatchStream // a second watch opened later in the history at an explicit start revision
+	start2 uint64
+	m      *mvcc
 }
 
 func newEtcdWorld(watch bool) *etcdWorld {
@@ -266,9 +268,16 @@ func (w *etcdWorld) checkWatch(out *mc.SeqOut) {
 	if w.ws == nil {
 		return
 	}
+	w.checkWatchStream(out, w.ws, 0, "")
+	if w.ws2 != nil {
+		w.checkWatchStream(out, w.ws2, w.start2, "|explicit-start-revision")
+	}
+}
+
+func (w *etcdWorld) checkWatchStream(out *mc.SeqOut, ws *hx.WatchStream, start uint64, cls string) {
 	var got []string
 	created := false
-	for _, r := range w.ws.Sent {
+	for _, r := range ws.Sent {
 		if r.Created {
 			created = true
 			continue
@@ -297,6 +306,9 @@ func (w *etcdWorld) checkWatch(out *mc.SeqOut) {
 	}
 	var want []string
 	for _, e := range w.m.events {
+		if e.rev < start {
+			continue
+		}
 		if e.kind == "delete" {
 			want = append(want, fmt.Sprintf("DELETE %s@%d prev=%s@%d", e.key, int64(e.rev)-base, e.val, int64(e.prevRev)-base))
 		} else {
@@ -304,7 +316,7 @@ func (w *etcdWorld) checkWatch(out *mc.SeqOut) {
 		}
 	}
 	if strings.Join(got, "; ") != strings.Join(want, "; ") {
-		w.fail(out, "watch-events", "the prefix watch emitted [%s]; etcd would emit [%s]", strings.Join(got, "; "), strings.Join(want, "; "))
+		w.fail(out, "watch-events"+cls, "the prefix watch from revision %d emitted [%s]; etcd would emit [%s]", int64(start)-base, strings.Join(got, "; "), strings.Join(want, "; "))
 	}
 }
 
@@ -316,16 +328,27 @@ func c16Run(_ int, hist []int) *mc.SeqOut {
 		if !w.step(out, a) {
 			return out
 		}
+		if i == 0 && len(hist) > 1 {
+			// a second watch from "the next revision", opened after the first request
+			w.start2 = w.b.GetCurrentRevision() + 1
+			w.ws2 = hx.NewWatchStream()
+			ws2 := w.ws2
+			vrt.GoDaemon(func() { _ = w.srv.Watch(ws2) })
+			ws2.Push(&pb.WatchRequest{RequestUnion: &pb.WatchRequest_CreateRequest{CreateRequest: &pb.WatchCreateRequest{Key: []byte("/r/"), RangeEnd: []byte("/r0"), PrevKv: true, StartRevision: int64(w.start2)}}})
+			vrt.Quiesce()
+		}
 		if i == len(hist)-1 {
 			w.readBack(out)
 		}
 	}
 	w.checkWatch(out)
-	if w.ws != nil {
-		w.ws.Cancel()
-		w.ws.CloseSend()
-		vrt.Quiesce()
+	for _, ws := range []*hx.WatchStream{w.ws, w.ws2} {
+		if ws != nil {
+			ws.Cancel()
+			ws.CloseSend()
+		}
 	}
+	vrt.Quiesce()
 	// the count of a limited range is a known deviation: it must not stop the search
 	var keep []mc.Violation
 	for _, v := range out.Viols {
@@ -354,9 +377,9 @@ type gCompare struct {
 }
 
 type gOp struct {
-	kind   string // put del range txn
-	key    int
-	flag   string // "", ignore-value, ignore-lease, prev-kv, range-end
+	kind string // put del range txn
+	key  int
+	flag string // "", ignore-value, ignore-lease, prev-kv, range-end
 }
 
 type gShape struct {
@@ -639,9 +662,9 @@ func c16GrammarExec(j *mc.Job) *mc.JobResult {
 
 func init() {
 	mc.Register(&mc.Property{
-		ID:    "C16",
-		Level: "model_checking",
-		Rule: "(a) explicit-state BFS over histories of the four Kubernetes transaction shapes with correct / stale / zero expected revisions on 2 prefix-related keys through the real etcd RPC server (in-memory watch stream, leader role): success flag, failure-branch key-value, revisions, then every point and range read (7 bounds, every limit 0..n+1, every revision, count-only) compared with an etcd reference model, and the prefix watch's PUT/DELETE events with previous key-values; (b) every transaction of a grammar (0-2 compares over 4 targets x 4 results x 2 keys, 0-2 success operations out of 13 incl. flags and nested transactions, 0-1 failure operations; ~21 000 shapes) on 3 store states: only the four shapes on one key may be executed, everything else must return an error and leave the store byte-identical",
+		ID:     "C16",
+		Level:  "model_checking",
+		Rule:   "(a) explicit-state BFS over histories of the four Kubernetes transaction shapes with correct / stale / zero expected revisions on 2 prefix-related keys through the real etcd RPC server (in-memory watch stream, leader role): success flag, failure-branch key-value, revisions, then every point and range read (7 bounds, every limit 0..n+1, every revision, count-only) compared with an etcd reference model, and the prefix watch's PUT/DELETE events with previous key-values; (b) every transaction of a grammar (0-2 compares over 4 targets x 4 results x 2 keys, 0-2 success operations out of 13 incl. flags and nested transactions, 0-1 failure operations; ~21 000 shapes) on 3 store states: only the four shapes on one key may be executed, everything else must return an error and leave the store byte-identical",
 		Assume: []string{"Succeeded is not compared for the unguarded delete shape (Kubernetes reads only the previous key-value there)", "lease arguments are 0; CreateRevision / Version fields are not compared (the property names modification revisions)"},
 		Exec: func(j *mc.Job) *mc.JobResult {
 			if j.Kind == "grammar" {
